@@ -489,6 +489,17 @@ class Engine:
     def st_Pass(self, s, st):
         return [(st, 'ok', None)]
 
+    def st_Delete(self, s, st):
+        # `del x[k]` is `x.pop(k)` with the result dropped (KeyError / IndexError when absent)
+        if len(s.targets) == 1 and isinstance(s.targets[0], ast.Subscript):
+            t = s.targets[0]
+            call = ast.Call(func=ast.Attribute(value=t.value, attr='pop', ctx=ast.Load()),
+                            args=[t.slice], keywords=[])
+            ast.copy_location(call, s)
+            ast.fix_missing_locations(call)
+            return self._ev_then(call, st, lambda st1, v: [(st1, 'ok', None)])
+        raise Unsupported('del statement at line %d' % s.lineno)
+
     def st_Return(self, s, st):
         if s.value is None:
             return [(st, 'ret', None)]
@@ -834,7 +845,7 @@ class Engine:
                 if isinstance(x, ast.Call) and isinstance(x.func, ast.Attribute) \
                         and x.func.attr in MUT and isinstance(x.func.value, ast.Name):
                     names.add(x.func.value.id)
-                if isinstance(x, ast.Subscript) and isinstance(x.ctx, ast.Store) \
+                if isinstance(x, ast.Subscript) and isinstance(x.ctx, (ast.Store, ast.Del)) \
                         and isinstance(x.value, ast.Name):
                     names.add(x.value.id)
         return names
